@@ -42,6 +42,30 @@ def spec_lane(k, l):
     return ('call', 'BitOr', ('call', 'BitOr', R, shl(G, 8)), ('call', 'BitOr', shl(B, 16), shl(('c', 255), 24)))
 
 
+def lanes(ck, F, rule='F'):
+    """rule F: every output lane has the BT.601 canonical form on Y[l], Cb[l/2], Cr[l/2]; returns (body, real, fixed) or None"""
+    b = F.body(K)
+    real, fixed = coefficients()
+    ck.sample({'computed_coefficients': fixed, 'real_x65536': {k: float(v * 65536) for k, v in real.items()}})
+    try:
+        tb = TreeBuilder(F)
+        r, stores = tb.function(K)
+    except TooComplex as e:
+        ck.unanalysable('kernel left the analysable fragment', str(e)); return None
+    outs = [(t, v) for t, v in stores if t == ('in', 'arg2')]
+    if len(outs) != 1 or not (outs[0][1][0] == 'call' and outs[0][1][1] == 'bytecast'):
+        ck.violation(rule, '%s : yuv_to_rgba_4x : output store' % rule, where_of(b), 'the kernel does not store one reinterpreted i32x4 into its output array (found %d stores)' % len(stores)); return None
+    vec = outs[0][1][2]
+    for l in range(4):
+        got = canon(lane(vec, l)); want = canon(spec_lane(fixed, l))
+        if got == want:
+            ck.ok(rule, 'lane %d == BT.601 form (Y[%d], Cb[%d], Cr[%d])' % (l, l, l // 2, l // 2), where_of(b))
+        else:
+            ck.violation(rule, '%s : yuv_to_rgba_4x : lane %d differs from the BT.601 form' % (rule, l), where_of(b),
+                         'lane %d computes %s ; the BT.601 16.16 formula is %s' % (l, show(got)[:700], show(want)[:700]))
+    return b, real, fixed
+
+
 def run(ck, F, tier):
     ck.explanation = ('C07 decided for all 2^24 inputs at once: the straight-line kernel yuv_to_rgba_4x is if-converted into one expression per output lane '
                       '(wide::i32x4 operators modelled lane-wise), canonicalised (exact linear forms, sorted commutative operators, clamp = min(max)), and compared '
@@ -52,25 +76,9 @@ def run(ck, F, tier):
                        'reinterprets little-endian (the MIR analysed is the little-endian cfg arm)']
     ck.rule('F', 'each of the 4 output lanes canonicalises to  R | G<<8 | B<<16 | 255<<24  with R,G,B = clamp((k.y*(Y-16) + ... + 32768) >> 16, 0, 255) and the computed coefficients; '
                  'lane l uses Y[l], Cb[l/2], Cr[l/2]')
-    b = F.body(K)
-    real, fixed = coefficients()
-    ck.sample({'computed_coefficients': fixed, 'real_x65536': {k: float(v * 65536) for k, v in real.items()}})
-    try:
-        tb = TreeBuilder(F)
-        r, stores = tb.function(K)
-    except TooComplex as e:
-        ck.unanalysable('kernel left the analysable fragment', str(e)); return
-    outs = [(t, v) for t, v in stores if t == ('in', 'arg2')]
-    if len(outs) != 1 or not (outs[0][1][0] == 'call' and outs[0][1][1] == 'bytecast'):
-        ck.violation('F', 'F : yuv_to_rgba_4x : output store', where_of(b), 'the kernel does not store one reinterpreted i32x4 into its output array (found %d stores)' % len(stores)); return
-    vec = outs[0][1][2]
-    for l in range(4):
-        got = canon(lane(vec, l)); want = canon(spec_lane(fixed, l))
-        if got == want:
-            ck.ok('F', 'lane %d == BT.601 form (Y[%d], Cb[%d], Cr[%d])' % (l, l, l // 2, l // 2), where_of(b))
-        else:
-            ck.violation('F', 'F : yuv_to_rgba_4x : lane %d differs from the BT.601 form' % l, where_of(b),
-                         'lane %d computes %s ; the BT.601 16.16 formula is %s' % (l, show(got)[:700], show(want)[:700]))
+    res = lanes(ck, F, 'F')
+    if res is None: return
+    b, real, fixed = res
     # derived clauses, evaluated from the coefficients
     ck.rule('D', 'consequences of the form: every channel within 1 of the real-valued formula; monotone in each component; no i32 overflow; alpha = 255')
     ranges = {'y': 239, 'cr_r': 128, 'cr_g': 128, 'cb_g': 128, 'cb_b': 128}
